@@ -196,6 +196,25 @@ def run_case(case, R):
             elif kind == "regular":
                 g = (last + ev[3] % 5) & 0xFFFF
                 msg = regular_adv(g, cn=cn)
+            elif kind == "reload" and cold:
+                # (after a cold start nothing in the process but the pairing object itself knows what was accepted, and acceptances are not
+                # written to the cache: a pairing loaded again starts from the cached number, as after a restart - not judged)
+                continue
+            elif kind == "reload":
+                # the application loads the pairing again (a reloaded configuration entry): a new pairing object for the same accessory - what
+                # was accepted before stays accepted
+                pairing = ctl.load_pairing("alias", dict(PD))
+                if logs is not None:
+                    for l_ in logs:
+                        l_.clear()
+                    new_logs = attach_listeners(pairing, 3)
+                    logs[:] = new_logs
+                    calls = logs[0]
+                else:
+                    pairing.dispatcher_connect(lambda ev: calls.append(dict(ev)))
+                pairing.dispatcher_availability_changed(lambda a: avail.append(a))
+                await vtime.settle(loop)
+                continue
             elif kind == "regular-stale":
                 # a plain advertisement (nothing authenticates those) that names an older state number: a delayed duplicate, or a forgery
                 g = max(1, last - 1 - ev[3] % 40)
@@ -364,7 +383,7 @@ def run_removed(case, R):
     vtime.run(main)
 
 
-KINDS = ["next", "next", "next", "skip", "beyond", "replay-current", "older", "wrong-key", "wrong-aad", "other-device", "inner-mismatch", "flip", "truncated", "regular", "regular-stale"]
+KINDS = ["next", "next", "next", "skip", "beyond", "replay-current", "older", "wrong-key", "wrong-aad", "other-device", "inner-mismatch", "flip", "truncated", "regular", "regular-stale", "reload"]
 
 
 @st.composite
@@ -392,6 +411,9 @@ def enum_fixed(tier):
     yield {"g0": 10, "events": hist, "unreachable": True}
     yield {"g0": 65000, "events": hist[:6], "unreachable": True, "cn": 3}
     yield {"g0": 10, "events": hist, "cache_fails": True}
+    for g0 in (100, 65000):
+        yield {"g0": g0, "events": [["next", 1, 1, 0], ["skip", 2, 2, 5], ["reload", 0, 0, 0], ["replay-current", 2, 0, 0], ["older", 1, 0, 3], ["older", 1, 0, 0], ["next", 1, 3, 0], ["reload", 0, 0, 0],
+                                     ["replay-current", 1, 0, 0], ["skip", 3, 4, 7]], "listeners": bool(g0 == 100)}
     yield {"g0": 100, "events": [["next", 1, 1, 0], ["replay-current", 1, 0, 0], ["regular-stale", 0, 0, 9], ["replay-current", 1, 0, 0], ["older", 1, 0, 3], ["skip", 1, 1, 8]]}
     for g0 in (10, 65000):
         yield {"g0": g0, "events": hist, "listeners": True}
